@@ -82,7 +82,7 @@ def _may_expand(name):
             except OSError:
                 return set()
         _EXPAND["trivial"] = rd("trivial_accessors.txt")
-        _EXPAND["known"] = rd("known_helpers.txt")
+        _EXPAND["known"] = rd("known_helpers.txt") | rd("reference_functions.txt")
     return name in _EXPAND["trivial"] or name not in _EXPAND["known"]
 
 
